@@ -244,6 +244,8 @@ def main(run: Run):
         _da(run, fvb.obs, timeout_ms=10000)
     except _Uns as e:
         run.bounded_notes.append(f"csr.Bridge.elaborate: outside the pyvc subset on this tree ({e}); the per-hierarchy clauses decide")
+    from . import ctor_l1
+    ctor_l1.add_to(run, ['reg_bridge_init', 'mux_init'])
     return run.finish(
         explanation="End-to-end composition on generated hierarchies: the flattened real design is checked at the root bus against the "
                     "addresses root.memory_map.all_resources() reports (CSR-rooted: generic CSR-target contract with a symbolic root "
